@@ -119,7 +119,7 @@ fn header_level(ctx: &mut Ctx, arena: &Arena, h: &[u8]) {
                             lists[slot] = b.recs;
                         }
                         _ => {
-                            hbattery::walk(&mut b, &hd_, p, len / 8 + 2);
+                            hbattery::walk_opts(&mut b, &hd_, p, len / 8 + 2, true);
                             let recs = std::mem::take(&mut b.recs);
                             drop(b);
                             if recs.iter().any(|r| r.name == "iter.unbounded") {
